@@ -746,9 +746,12 @@ class Association(threading.Thread):
                 LOGGER.info(log_msg)
                 # Ensure that EVT_ASCE_RECV fires for subscribers
                 self.dul.receive_pdu(wait=False)
-                self.is_aborted = True
-                self.is_established = False
-                evt.trigger(self, evt.EVT_ABORTED, {})
+                # A local abort() may already have reported the abort
+                if not self._sent_abort:
+                    self.is_aborted = True
+                    self.is_established = False
+                    evt.trigger(self, evt.EVT_ABORTED, {})
+
                 self.kill()
                 return
 
